@@ -16,7 +16,7 @@ Record header := mkHdr { h_ver : N; h_typ : N; h_len : N; h_id : N }.
 Definition wf_hdr (h : header) : Prop :=
   h_ver h < 2 ^ 8 /\ h_typ h < 2 ^ 16 /\ h_len h < 2 ^ 32 /\ h_id h < 2 ^ 32.
 
-Inductive herr := ErrShort | ErrLenBelowHeader | ErrRefused.
+Inductive herr := ErrShort | ErrLenBelowHeader | ErrRefused | ErrDeadline.
 Inductive hres := HOk (h : header) | HErr (e : herr).
 
 Definition header_sz : N := 10.
